@@ -52,8 +52,9 @@ static Janet vo_any(void) {
     __CPROVER_assume(x.type >= JANET_NUMBER && x.type <= JANET_POINTER);
     x.as.u64 = nd_u64();
     /* representation invariant of the two payload-less types (wrap.c): nil carries 0, a boolean carries 0 or 1 */
-    if (x.type == JANET_NIL) x.as.u64 = 0;
-    if (x.type == JANET_BOOLEAN) x.as.u64 &= 1;
+    /* (stated as assumptions, not assignments, so that the payload stays one plain symbol for the solver) */
+    __CPROVER_assume(x.type != JANET_NIL || x.as.u64 == 0);
+    __CPROVER_assume(x.type != JANET_BOOLEAN || x.as.u64 <= 1);
     return x;
 }
 static Janet vo_num(double d) { Janet x; x.type = JANET_NUMBER; x.as.u64 = 0; x.as.number = d; return x; }
